@@ -64,7 +64,8 @@ Proof.
   - (* WLoad *) apply andb_prop in He. destruct He as [Hr _].
     destruct (r_state s =? st_hr); [split; [exact Hc | lia]|]. apply SW; auto. lia.
   - (* WakeClose *) apply andb_prop in He. destruct He as [He _]. apply andb_prop in He. destruct He as [Hr _].
-    destruct (r_state s =? st_hr); apply SW; auto; lia.
+    destruct (r_state s =? st_hr); [apply SW; auto; lia|].
+    destruct (check_early s && negb (pool_of s id =? w_pool (watcher_of s id))%nat); apply SW; auto; lia.
   - (* WakeCtx *) apply andb_prop in He. destruct He as [He _]. apply andb_prop in He. destruct He as [Hr _].
     apply SW; auto. lia.
   - (* TimerFires: disabled once closed *) rewrite Hc in He. rewrite andb_false_r in He. discriminate.
@@ -75,13 +76,25 @@ Proof.
     assert (G : forall w, isC w = 0%nat -> (cnt (upd (watchers s) id w) + 1 = cnt (watchers s))%nat).
     { intros w Hw. pose proof (cnt_upd (watchers s) id w {| w_pc := WExit; w_pool := 0%nat |} Hr') as X.
       unfold watcher_of in HC. rewrite HC in X. lia. }
-    destruct (negb (pool_of s id =? w_pool (watcher_of s id))%nat).
-    { cbn [created watchers closed set_watcher]. split; [exact Hc|]. pose proof (G {| w_pc := WTop; w_pool := w_pool (watcher_of s id) |} eq_refl). lia. }
+    assert (BR : forall pc', isC {| w_pc := pc'; w_pool := w_pool (watcher_of s id) |} = 0%nat ->
+                 closed (set_watcher s id {| w_pc := pc'; w_pool := w_pool (watcher_of s id) |}) = true /\
+                 (created (set_watcher s id {| w_pc := pc'; w_pool := w_pool (watcher_of s id) |}) +
+                  cnt (watchers (set_watcher s id {| w_pc := pc'; w_pool := w_pool (watcher_of s id) |})) <= created s + cnt (watchers s))%nat).
+    { intros pc' Hz. cbn [created watchers closed set_watcher]. split; [exact Hc|]. pose proof (G _ Hz). lia. }
+    destruct (negb (check_early s) && negb (pool_of s id =? w_pool (watcher_of s id))%nat); [apply BR; reflexivity|].
     destruct (negb ok).
-    { cbn [created watchers closed set_watcher]. split; [exact Hc|]. pose proof (G {| w_pc := WWait; w_pool := w_pool (watcher_of s id) |} eq_refl). lia. }
-    destruct (nth_error (objs s) (w_pool (watcher_of s id))).
-    + cbn [created watchers closed set_watcher]. split; [exact Hc|]. pose proof (G {| w_pc := WTop; w_pool := w_pool (watcher_of s id) |} eq_refl). lia.
-    + cbn [created watchers closed set_watcher]. split; [exact Hc|]. pose proof (G {| w_pc := WTop; w_pool := w_pool (watcher_of s id) |} eq_refl). lia.
+    { destruct (check_early s && negb (pool_of s id =? w_pool (watcher_of s id))%nat); apply BR; reflexivity. }
+    destruct (nth_error (objs s) (w_pool (watcher_of s id))); [|apply BR; reflexivity].
+    cbn [created watchers closed]. split; [exact Hc|].
+    pose proof (G {| w_pc := WStore; w_pool := w_pool (watcher_of s id) |} eq_refl). lia.
+  - (* Store *) apply andb_prop in He. destruct He as [Hr Hpc].
+    assert (HC : isC (watcher_of s id) = 0%nat).
+    { unfold isC. destruct (w_pc (watcher_of s id)); try discriminate. reflexivity. }
+    pose proof Hr as Hr'. unfold in_range in Hr'. apply Nat.ltb_lt in Hr'.
+    pose proof (cnt_upd (watchers s) id {| w_pc := WTop; w_pool := w_pool (watcher_of s id) |} {| w_pc := WExit; w_pool := 0%nat |} Hr') as X.
+    unfold watcher_of in HC. rewrite HC in X.
+    destruct (nth_error (objs s) (w_pool (watcher_of s id))); cbn [created watchers closed set_watcher];
+      (split; [exact Hc | unfold isC at 1 in X; cbn [w_pc] in X; lia]).
   - cbn. split; [exact Hc | lia].
   - destruct (hr_event_frame s i e ok) as [H1 [H2 [H3 _]]]. rewrite H1, H2, H3. split; [exact Hc | lia].
   - destruct (count_some (reserve s) =? length (pools s))%nat; cbn; split; auto; lia.
@@ -114,6 +127,7 @@ Proof.
   - apply andb_prop in He. destruct He as [He _]. apply andb_prop in He. destruct He as [Hr Hp]. rewrite (X id Hr) in Hp. discriminate.
   - apply andb_prop in He. destruct He as [He Hp]. apply andb_prop in He. destruct He as [Hr _]. rewrite (X id Hr) in Hp. discriminate.
   - apply andb_prop in He. destruct He as [He Hp]. apply andb_prop in He. destruct He as [Hr _]. rewrite (X id Hr) in Hp. discriminate.
+  - apply andb_prop in He. destruct He as [Hr Hp]. rewrite (X id Hr) in Hp. discriminate.
   - apply andb_prop in He. destruct He as [Hr Hp]. rewrite (X id Hr) in Hp. discriminate.
   - cbn. auto.
   - destruct (hr_event_frame s i e ok) as [H1 [H2 _]]. unfold all_exited. rewrite H1, H2. auto.
@@ -169,7 +183,9 @@ Lemma heal_wake : forall s id, Lost s id WSelect -> r_state s <> st_hr -> obj_al
 Proof.
   intros s id L Hs Ha. pose proof L as [Hr Ho Hp Hpool Hobj]. unfold r_step. cbn [r_enabled].
   rewrite Hr, Hp, Hpool, Ha. cbn [andb negb]. cbn [r_apply].
-  apply Z.eqb_neq in Hs. rewrite Hs. split; [apply (lost_set s id WSelect WWait L) | cbn; auto].
+  apply Z.eqb_neq in Hs. rewrite Hs. rewrite Hpool, Nat.eqb_refl. cbn [negb]. rewrite andb_false_r.
+  rewrite <- Hpool at 1.
+  split; [apply (lost_set s id WSelect WWait L) | cbn; auto].
 Qed.
 
 Lemma heal_timer : forall s id, Lost s id WWait ->
@@ -186,23 +202,38 @@ Lemma heal_fail : forall s id, Lost s id WCompare ->
   Lost s' id WWait /\ r_state s' = r_state s /\ created s' = created s /\ bad s' = bad s /\ objs s' = objs s.
 Proof.
   intros s id L. pose proof L as [Hr Ho Hp Hpool Hobj]. unfold r_step. cbn [r_enabled].
-  rewrite Hr, Hp. cbn [andb]. cbn [r_apply]. rewrite Hpool, Nat.eqb_refl. cbn [negb].
-  rewrite <- Hpool at 1 2.
+  rewrite Hr, Hp. cbn [andb]. cbn [r_apply]. rewrite Hpool, Nat.eqb_refl. cbn [negb]. rewrite !andb_false_r.
+  rewrite <- Hpool at 1.
   split; [apply (lost_set s id WCompare WWait L) | cbn; auto].
 Qed.
 
-Lemma heal_ok : forall s id, Lost s id WCompare ->
+(* the dial succeeds: the replacement exists, not yet stored *)
+Lemma heal_dial : forall s id, Lost s id WCompare ->
   let s' := r_step s (Compare id true) in
-  get_stream_r s' id = GsOk /\ w_pc (watcher_of s' id) = WTop /\ created s' = S (created s) /\ bad s' = bad s /\
-  obj_epoch s' (pool_of s' id) = r_epoch s.
+  in_range s' id = true /\ w_pc (watcher_of s' id) = WStore /\ w_pool (watcher_of s' id) = pool_of s' id /\
+  (pool_of s' id < length (objs s'))%nat /\ created s' = S (created s) /\ bad s' = bad s.
 Proof.
   intros s id L. pose proof L as [Hr Ho Hp Hpool Hobj]. unfold r_step. cbn [r_enabled].
-  rewrite Hr, Hp. cbn [andb]. cbn [r_apply]. rewrite Hpool, Nat.eqb_refl. cbn [negb].
+  rewrite Hr, Hp. cbn [andb]. cbn [r_apply]. rewrite Hpool, Nat.eqb_refl. cbn [negb]. rewrite !andb_false_r.
   destruct (nth_error (objs s) (pool_of s id)) as [p|] eqn:Hn.
   2:{ apply nth_error_None in Hn. lia. }
-  unfold get_stream_r, obj_alive, obj_epoch, pool_of, watcher_of. cbn.
-  rewrite (nth_error_upd_same _ _ _ _ _ Hn). cbn.
-  try rewrite Nat.eqb_refl.
+  assert (Hlt : (id < length (watchers s))%nat) by (unfold in_range in Hr; apply Nat.ltb_lt; exact Hr).
+  split. { unfold in_range in *. cbn [watchers]. rewrite upd_length. exact Hr. }
+  unfold watcher_of, pool_of. cbn [watchers pools objs created bad]. rewrite upd_length.
+  rewrite nth_upd_same by exact Hlt. cbn [w_pc w_pool]. unfold pool_of in Hobj. repeat split; auto.
+Qed.
+
+Lemma heal_store : forall s id,
+  in_range s id = true -> w_pc (watcher_of s id) = WStore -> w_pool (watcher_of s id) = pool_of s id ->
+  (pool_of s id < length (objs s))%nat ->
+  let s' := r_step s (Store id) in
+  get_stream_r s' id = GsOk /\ w_pc (watcher_of s' id) = WTop /\ created s' = created s /\ bad s' = bad s.
+Proof.
+  intros s id Hr Hp Hpool Hobj. unfold r_step. cbn [r_enabled]. rewrite Hr, Hp. cbn [andb r_apply]. rewrite Hpool.
+  destruct (nth_error (objs s) (pool_of s id)) as [p|] eqn:Hn.
+  2:{ apply nth_error_None in Hn. lia. }
+  unfold get_stream_r, obj_alive, pool_of, watcher_of. cbn.
+  rewrite (nth_error_upd_same _ _ _ _ _ Hn). cbn. rewrite Nat.eqb_refl.
   rewrite nth_upd_same by (unfold in_range in Hr; apply Nat.ltb_lt; exact Hr). cbn. auto.
 Qed.
 
@@ -211,24 +242,30 @@ Fixpoint retries (id : nat) (k : nat) : list revent :=
 
 Theorem heals : forall k s id,
   Lost s id WSelect -> r_state s <> st_hr -> obj_alive s (pool_of s id) = false ->
-  let s' := r_run ([WakeClose id; TimerFires id] ++ retries id k ++ [Compare id true]) s in
+  let s' := r_run ([WakeClose id; TimerFires id] ++ retries id k ++ [Compare id true; Store id]) s in
   get_stream_r s' id = GsOk /\ w_pc (watcher_of s' id) = WTop /\ created s' = S (created s) /\ bad s' = bad s.
 Proof.
   intros k s id L Hs Ha. cbn zeta.
-  change (r_run ([WakeClose id; TimerFires id] ++ retries id k ++ [Compare id true]) s)
-    with (r_run (retries id k ++ [Compare id true]) (r_step (r_step s (WakeClose id)) (TimerFires id))).
+  change (r_run ([WakeClose id; TimerFires id] ++ retries id k ++ [Compare id true; Store id]) s)
+    with (r_run (retries id k ++ [Compare id true; Store id]) (r_step (r_step s (WakeClose id)) (TimerFires id))).
   destruct (heal_wake s id L Hs Ha) as [L1 [_ [C1 [B1 _]]]].
   destruct (heal_timer _ id L1) as [L2 [_ [C2 [B2 _]]]].
   set (s2 := r_step (r_step s (WakeClose id)) (TimerFires id)) in *.
   assert (G : forall k s2, Lost s2 id WCompare ->
-            let s' := r_run (retries id k ++ [Compare id true]) s2 in
+            let s' := r_run (retries id k ++ [Compare id true; Store id]) s2 in
             get_stream_r s' id = GsOk /\ w_pc (watcher_of s' id) = WTop /\ created s' = S (created s2) /\ bad s' = bad s2).
   { clear. induction k as [|k IH]; intros s2 L; cbn zeta.
-    - cbn. destruct (heal_ok s2 id L) as [A [B [C [D _]]]]. auto.
-    - cbn [retries app r_run fold_left].
+    - cbn [retries app].
+      change (r_run [Compare id true; Store id] s2) with (r_step (r_step s2 (Compare id true)) (Store id)).
+      destruct (heal_dial s2 id L) as [A [B [C [D [E F]]]]].
+      destruct (heal_store _ id A B C D) as [G1 [G2 [G3 G4]]].
+      repeat split; auto; congruence.
+    - cbn [retries app].
+      change (r_run (Compare id false :: TimerFires id :: retries id k ++ [Compare id true; Store id]) s2)
+        with (r_run (retries id k ++ [Compare id true; Store id]) (r_step (r_step s2 (Compare id false)) (TimerFires id))).
       destruct (heal_fail s2 id L) as [L1 [_ [C1 [B1 _]]]].
       destruct (heal_timer _ id L1) as [L2 [_ [C2 [B2 _]]]].
-      destruct (IH _ L2) as [A [B [C D]]]. cbn zeta in *. unfold r_run in *.
+      destruct (IH _ L2) as [A [B [C D]]]. cbn zeta in *.
       repeat split; auto; congruence. }
   destruct (G k s2 L2) as [A [B [C D]]]. cbn zeta in *. repeat split; auto; congruence.
 Qed.
@@ -244,55 +281,166 @@ Proof.
 Qed.
 
 (* ------------------------------------------------------------------ C17_not_twice *)
-(* the guard (identity of the pool object): a watcher whose pool object is no longer sm.pools[id]
-   creates nothing and touches no pool, whatever the epochs are *)
-Theorem guard_swapped : forall s id ok,
+(* the guard (identity of the pool object, checked in the critical section of the dial): a watcher whose
+   pool object is no longer sm.pools[id] does not dial *)
+Theorem guard_swapped : forall s id ok, check_early s = false ->
   in_range s id = true -> w_pc (watcher_of s id) = WCompare ->
   pool_of s id <> w_pool (watcher_of s id) ->
   let s' := r_step s (Compare id ok) in
   created s' = created s /\ objs s' = objs s /\ pools s' = pools s /\ bad s' = bad s /\ w_pc (watcher_of s' id) = WTop.
 Proof.
-  intros s id ok Hr Hp Hne. unfold r_step. cbn [r_enabled]. rewrite Hr, Hp. cbn [andb r_apply].
-  apply Nat.eqb_neq in Hne. rewrite Hne. cbn [negb]. cbn. repeat split; auto.
+  intros s id ok Hce Hr Hp Hne. unfold r_step. cbn [r_enabled]. rewrite Hr, Hp. cbn [andb r_apply].
+  apply Nat.eqb_neq in Hne. rewrite Hne, Hce. cbn [negb andb]. cbn. repeat split; auto.
   unfold watcher_of. cbn. rewrite nth_upd_same by (unfold in_range in Hr; apply Nat.ltb_lt; exact Hr). reflexivity.
 Qed.
 
-(* every step leaves the ghost counter of rebuilds into a stale pool object unchanged *)
-Lemma step_bad : forall s ev, bad (r_step s ev) = bad s.
+(* no hot-restart event for pool id is handled between the end of the dial's critical section and
+   `pool.session.Store(session)` of that pool's watcher (two adjacent statements of the watcher) *)
+Definition store_atomic (s : rstate) (ev : revent) : bool :=
+  match ev with
+  | HREvent i _ _ => match w_pc (watcher_of s i) with WStore => false | _ => true end
+  | _ => true
+  end.
+Fixpoint run_store_atomic (evs : list revent) (s : rstate) : Prop :=
+  match evs with [] => True | ev :: r => store_atomic s ev = true /\ run_store_atomic r (r_step s ev) end.
+
+Lemma hr_event_pool_other : forall s i e ok j, i <> j -> pool_of (hr_event s i e ok) j = pool_of s j.
 Proof.
-  intros s ev. unfold r_step. destruct (r_enabled s ev); [|reflexivity].
-  destruct ev; cbn [r_apply]; try reflexivity.
-  - destruct (r_state s =? st_hr); reflexivity.
-  - destruct (r_state s =? st_hr); reflexivity.
-  - destruct (negb (pool_of s id =? w_pool (watcher_of s id))%nat) eqn:Hc; [reflexivity|].
-    destruct (negb ok); [reflexivity|].
-    destruct (nth_error (objs s) (w_pool (watcher_of s id))); [|reflexivity].
-    cbn. apply negb_false_iff in Hc. apply Nat.eqb_eq in Hc. rewrite Hc, Nat.eqb_refl. reflexivity.
-  - apply hr_event_frame.
-  - destruct (count_some (reserve s) =? length (pools s))%nat; reflexivity.
-  - destruct (cprog s) as [|c rest]; [reflexivity|]. destruct c; reflexivity.
+  intros s i e ok j Hne. unfold hr_event. destruct (closed s); [reflexivity|].
+  destruct ((r_state s =? st_hr) && negb (r_epoch s =? e)); [reflexivity|].
+  destruct (r_state s =? st_hr); cbn.
+  - destruct (nth_error (reserve s) i) as [[o|]|]; cbn; try reflexivity; destruct ok; cbn; try reflexivity;
+      unfold pool_of; cbn; apply nth_upd_other; exact Hne.
+  - destruct (nth_error (repeat None (length (pools s))) i) as [[o|]|]; cbn; try reflexivity; destruct ok; cbn; try reflexivity;
+      unfold pool_of; cbn; apply nth_upd_other; exact Hne.
 Qed.
 
-Theorem not_twice_full : forall n evs, bad (r_run evs (r_init n)) = 0%nat.
+Lemma hr_event_early : forall s i e ok, check_early (hr_event s i e ok) = check_early s.
 Proof.
-  intros n evs. apply (r_run_inv (fun s => bad s = 0%nat)); [|reflexivity].
-  intros s ev H. rewrite step_bad. exact H.
+  intros. unfold hr_event. destruct (closed s); [reflexivity|].
+  destruct ((r_state s =? st_hr) && negb (r_epoch s =? e)); [reflexivity|].
+  destruct (r_state s =? st_hr); cbn.
+  - destruct (nth_error (reserve s) i) as [[o|]|]; cbn; try reflexivity; destruct ok; reflexivity.
+  - destruct (nth_error (repeat None (length (pools s))) i) as [[o|]|]; cbn; try reflexivity; destruct ok; reflexivity.
 Qed.
 
-(* a session created by a watcher goes into the pool object that is sm.pools[id] at that moment *)
-Theorem rebuild_into_current : forall s id ok,
-  created (r_step s (Compare id ok)) = S (created s) -> w_pool (watcher_of s id) = pool_of s id.
+(* a watcher that holds a dialled, not yet stored session still holds the pool object that is sm.pools[id] *)
+Record StoreInv (s : rstate) : Prop := {
+  si_bad : bad s = 0%nat;
+  si_early : check_early s = false;
+  si_store : forall id, in_range s id = true -> w_pc (watcher_of s id) = WStore -> w_pool (watcher_of s id) = pool_of s id }.
+
+Lemma storeinv_set : forall s id w, StoreInv s -> in_range s id = true ->
+  (w_pc w = WStore -> w_pool w = pool_of s id) -> StoreInv (set_watcher s id w).
 Proof.
-  intros s id ok. unfold r_step. destruct (r_enabled s (Compare id ok)); [|intro X; exfalso; lia].
-  cbn [r_apply].
-  destruct (negb (pool_of s id =? w_pool (watcher_of s id))%nat) eqn:Hc; [cbn; intro X; exfalso; lia|].
-  intros _. apply negb_false_iff in Hc. apply Nat.eqb_eq in Hc. congruence.
+  intros s id w [B E S] Hr Hw. constructor; cbn; auto.
+  intros j Hj Hpc. unfold in_range in *. cbn in Hj. rewrite upd_length in Hj.
+  unfold watcher_of, pool_of in *. cbn in *. destruct (Nat.eq_dec id j) as [->|Hne].
+  - rewrite nth_upd_same in * by (apply Nat.ltb_lt; exact Hr). apply Hw. exact Hpc.
+  - rewrite nth_upd_other in * by exact Hne. apply S; assumption.
 Qed.
 
-(* the former witness: HotRestart(0) on a manager whose sessions have epoch 0, then the old server lets
-   go — the watcher (still holding the parked pool object) no longer dials *)
+Lemma step_storeinv : forall s ev, StoreInv s -> store_atomic s ev = true -> StoreInv (r_step s ev).
+Proof.
+  intros s ev H Ha. pose proof H as [B E S]. unfold r_step. destruct (r_enabled s ev) eqn:He; [|exact H].
+  assert (SAME : forall s', bad s' = bad s -> check_early s' = check_early s -> watchers s' = watchers s ->
+                 pools s' = pools s -> StoreInv s').
+  { intros s' Hb Hc Hw Hp. constructor; [congruence | congruence|].
+    intros j Hj Hpc. unfold in_range, watcher_of, pool_of in *. rewrite Hw, Hp in *. apply S; assumption. }
+  destruct ev; cbn [r_apply]; cbn [r_enabled] in He.
+  - apply andb_prop in He. destruct He as [Hr _]. destruct (r_state s =? st_hr); [exact H|].
+    apply storeinv_set; auto; try (cbn; discriminate).
+  - apply andb_prop in He. destruct He as [He _]. apply andb_prop in He. destruct He as [Hr _].
+    destruct (r_state s =? st_hr); [apply storeinv_set; auto; try (cbn; discriminate)|].
+    destruct (check_early s && negb (pool_of s id =? w_pool (watcher_of s id))%nat); apply storeinv_set; auto; try (cbn; discriminate).
+  - apply andb_prop in He. destruct He as [He _]. apply andb_prop in He. destruct He as [Hr _].
+    apply storeinv_set; auto; try (cbn; discriminate).
+  - apply andb_prop in He. destruct He as [He _]. apply andb_prop in He. destruct He as [Hr _].
+    apply storeinv_set; auto; try (cbn; discriminate).
+  - (* Compare: the dial happens only if the identity check, made in the same critical section, passed *)
+    apply andb_prop in He. destruct He as [Hr _]. rewrite E. cbn [negb andb].
+    destruct (negb (pool_of s id =? w_pool (watcher_of s id))%nat) eqn:Hid; [apply storeinv_set; auto; try (cbn; discriminate)|].
+    destruct (negb ok); [apply storeinv_set; auto; try (cbn; discriminate)|].
+    destruct (nth_error (objs s) (w_pool (watcher_of s id))); [|apply storeinv_set; auto; try (cbn; discriminate)].
+    apply negb_false_iff in Hid. apply Nat.eqb_eq in Hid.
+    constructor; cbn; auto.
+    intros j Hj Hpc. unfold in_range in *. cbn in Hj. rewrite upd_length in Hj.
+    unfold watcher_of, pool_of in *. cbn in *. destruct (Nat.eq_dec id j) as [->|Hne].
+    + rewrite nth_upd_same by (apply Nat.ltb_lt; exact Hr). cbn. congruence.
+    + rewrite nth_upd_other in * by exact Hne. apply S; assumption.
+  - (* Store *)
+    apply andb_prop in He. destruct He as [Hr Hpc].
+    assert (Hst : w_pc (watcher_of s id) = WStore) by (destruct (w_pc (watcher_of s id)); try discriminate; reflexivity).
+    pose proof (S id Hr Hst) as Heq.
+    destruct (nth_error (objs s) (w_pool (watcher_of s id))); [|apply storeinv_set; auto; try (cbn; discriminate)].
+    constructor; cbn; auto.
+    + rewrite Heq, Nat.eqb_refl. exact B.
+    + intros j Hj Hpcj. unfold in_range in *. cbn in Hj. rewrite upd_length in Hj.
+      unfold watcher_of, pool_of in *. cbn in *. destruct (Nat.eq_dec id j) as [->|Hne].
+      * rewrite nth_upd_same in Hpcj by (apply Nat.ltb_lt; exact Hr). discriminate.
+      * rewrite nth_upd_other in * by exact Hne. apply S; assumption.
+  - apply SAME; reflexivity.
+  - (* HREvent: may swap sm.pools[i]; not while watcher i holds an unstored session *)
+    cbn [store_atomic] in Ha.
+    destruct (hr_event_frame s i e ok) as [Hw [_ [_ Hb]]].
+    constructor; [congruence | rewrite hr_event_early; exact E|].
+    intros j Hj Hpc. unfold in_range, watcher_of in *. rewrite Hw in *.
+    destruct (Nat.eq_dec i j) as [->|Hne].
+    + unfold watcher_of in Ha. rewrite Hpc in Ha. discriminate.
+    + rewrite hr_event_pool_other by exact Hne. apply S; assumption.
+  - destruct (count_some (reserve s) =? length (pools s))%nat; [apply SAME; reflexivity | exact H].
+  - apply SAME; reflexivity.
+  - destruct (cprog s) as [|c rest]; [exact H|]. destruct c; apply SAME; reflexivity.
+  - exact H.
+Qed.
+
+Lemma init_storeinv : forall n, StoreInv (r_init n).
+Proof.
+  intro n. constructor; [reflexivity | reflexivity|].
+  intros id Hr Hpc. exfalso. unfold in_range, watcher_of in *. cbn in *. rewrite repeat_length in Hr.
+  apply Nat.ltb_lt in Hr. revert id Hr Hpc. induction n; intros [|id] H1 H2; cbn in *; try lia; try discriminate.
+  apply (IHn id); [lia | exact H2].
+Qed.
+
+(* no watcher ever stores a rebuilt session into a pool object that is no longer sm.pools[id] — for every
+   history in which the watcher's dial section and its Store are not separated by a hot-restart event for
+   that pool *)
+Theorem not_twice_partial : forall n evs, run_store_atomic evs (r_init n) -> bad (r_run evs (r_init n)) = 0%nat.
+Proof.
+  intros n evs.
+  assert (G : forall evs s, StoreInv s -> run_store_atomic evs s -> StoreInv (r_run evs s)).
+  { induction evs0 as [|ev r IH]; intros s Hs Hr; [exact Hs|].
+    change (r_run (ev :: r) s) with (r_run r (r_step s ev)). destruct Hr as [H1 H2].
+    apply IH; [apply step_storeinv; assumption | exact H2]. }
+  intro H. apply (si_bad _ (G evs (r_init n) (init_storeinv n) H)).
+Qed.
+
+(* without that hypothesis: the handler swaps the pool after the watcher released the lock and before it
+   stored — the replacement goes into the pool that has just been parked *)
+Definition store_race_history : list revent :=
+  [WLoad 0; SessionLost 0; WakeClose 0; TimerFires 0; Compare 0 true; HREvent 0 5 true; Store 0].
+
+Theorem not_twice_refuted : ~ (forall n evs, bad (r_run evs (r_init n)) = 0%nat).
+Proof. intro H. specialize (H 1%nat store_race_history). vm_compute in H. discriminate. Qed.
+
+(* the session lost, the hot-restart event for that pool handled DURING the rebuild wait *)
+Definition swap_during_wait_history : list revent :=
+  [WLoad 0; SessionLost 0; WakeClose 0; HREvent 0 5 true; TimerFires 0; Compare 0 true; Store 0].
+
+(* a session stored by a watcher goes into the pool object that is sm.pools[id], or is counted as bad *)
+Theorem rebuild_into_current : forall s id,
+  bad (r_step s (Store id)) = bad s -> r_enabled s (Store id) = true ->
+  (w_pool (watcher_of s id) < length (objs s))%nat -> w_pool (watcher_of s id) = pool_of s id.
+Proof.
+  intros s id Hb He Hlt. unfold r_step in Hb. rewrite He in Hb. cbn [r_apply] in Hb.
+  destruct (nth_error (objs s) (w_pool (watcher_of s id))) eqn:Hn.
+  - cbn in Hb. destruct (w_pool (watcher_of s id) =? pool_of s id)%nat eqn:E; [apply Nat.eqb_eq; exact E | lia].
+  - apply nth_error_None in Hn. lia.
+Qed.
+
+(* the former witness of the epoch comparison: HotRestart(0) on a manager whose sessions have epoch 0 *)
 Definition equal_epoch_history : list revent :=
-  [WLoad 0; HREvent 0 0 true; HRTick; SessionLost 0; WakeClose 0; TimerFires 0; Compare 0 true].
+  [WLoad 0; HREvent 0 0 true; HRTick; SessionLost 0; WakeClose 0; TimerFires 0; Compare 0 true; Store 0].
 
 (* ------------------------------------------------------------------ Close: termination and finality *)
 Definition alive_of (os : list pobj) (o : nat) : bool :=
@@ -331,9 +479,10 @@ Proof.
   - destruct Hin as [E|Hin]; [discriminate | apply IH; exact Hin].
 Qed.
 
-(* the state SessionManager.Close leaves behind: every watcher returned, every pool's session closed,
-   nothing parked *)
+(* the state SessionManager.Close leaves behind: context cancelled, every watcher returned, every pool's
+   session closed, nothing parked *)
 Record Quiesced (s : rstate) : Prop := {
+  q_closed : closed s = true;
   q_exited : all_exited s;
   q_pools : forall i, (i < length (pools s))%nat -> obj_alive s (pool_of s i) = false;
   q_reserve : Forall (fun r => r = None) (reserve s) }.
@@ -341,7 +490,7 @@ Record Quiesced (s : rstate) : Prop := {
 Lemma quiesced_step : forall s ev, Quiesced s ->
   Quiesced (r_step s ev) /\ created (r_step s ev) = created s /\ length (objs (r_step s ev)) = length (objs s).
 Proof.
-  intros s ev Q. pose proof Q as [Qx Qp Qr].
+  intros s ev Q. pose proof Q as [Qc Qx Qp Qr].
   destruct (exited_step s ev Qx) as [Ex Ec].
   unfold r_step in *. destruct (r_enabled s ev) eqn:He; [|auto].
   assert (X : forall id, in_range s id = true -> w_pc (watcher_of s id) = WExit).
@@ -354,17 +503,15 @@ Proof.
   - apply andb_prop in He. destruct He as [He Hp]. apply andb_prop in He. destruct He as [Hr _]. rewrite (X id Hr) in Hp. discriminate.
   - apply andb_prop in He. destruct He as [He Hp]. apply andb_prop in He. destruct He as [Hr _]. rewrite (X id Hr) in Hp. discriminate.
   - apply andb_prop in He. destruct He as [Hr Hp]. rewrite (X id Hr) in Hp. discriminate.
+  - apply andb_prop in He. destruct He as [Hr Hp]. rewrite (X id Hr) in Hp. discriminate.
   - (* SessionLost *)
     split; [|split; [reflexivity | cbn; apply kill_obj_length]].
     constructor; cbn; auto. intros i Hi. specialize (Qp i Hi). unfold obj_alive, pool_of in *. cbn.
     change (alive_of (kill_obj (objs s) o) (nth i (pools s) 0%nat) = false).
     rewrite kill_obj_alive. change (alive_of (objs s) (nth i (pools s) 0%nat)) with
       (match nth_error (objs s) (nth i (pools s) 0%nat) with Some p => o_alive p | None => false end). rewrite Qp. reflexivity.
-  - (* HREvent: no live session can carry it *)
-    exfalso. apply andb_prop in He. destruct He as [Hi Hc]. apply Nat.ltb_lt in Hi.
-    rewrite (Qp i Hi) in Hc. cbn [orb] in Hc.
-    destruct (nth_error (reserve s) i) as [[o|]|] eqn:Hn; try discriminate.
-    pose proof (Forall_nth_error _ _ _ _ _ Qr Hn) as Y. discriminate.
+  - (* HREvent: the handler sees the cancelled context *)
+    unfold hr_event in *. rewrite Qc in *. auto.
   - (* HRTick *)
     destruct (count_some (reserve s) =? length (pools s))%nat; [|auto].
     split; [|auto]. constructor; cbn; auto.
@@ -412,11 +559,11 @@ Definition exit_path (id : nat) (pc : wpc) : list revent :=
   match pc with WTop => [WLoad id; WakeCtx id] | WSelect | WWait => [WakeCtx id] | _ => [] end.
 
 Theorem close_exit_path : forall s id, closed s = true -> r_state s <> st_hr -> in_range s id = true ->
-  w_pc (watcher_of s id) <> WCompare ->
+  w_pc (watcher_of s id) <> WCompare -> w_pc (watcher_of s id) <> WStore ->
   let s' := r_run (exit_path id (w_pc (watcher_of s id))) s in
   w_pc (watcher_of s' id) = WExit /\ created s' = created s /\ objs s' = objs s.
 Proof.
-  intros s id Hc Hs Hr Hpc. cbn zeta. apply Z.eqb_neq in Hs.
+  intros s id Hc Hs Hr Hpc Hps. cbn zeta. apply Z.eqb_neq in Hs.
   assert (CTX : forall t, in_range t id = true -> closed t = true ->
                 (w_pc (watcher_of t id) = WSelect \/ w_pc (watcher_of t id) = WWait) ->
                 w_pc (watcher_of (r_step t (WakeCtx id)) id) = WExit /\
@@ -445,7 +592,7 @@ Qed.
    until the hot restart has ended (C16_exit: its checker is running; the 2 s bound is timer behaviour) *)
 Definition own (id : nat) (ev : revent) : bool :=
   match ev with
-  | WLoad j | WakeClose j | WakeCtx j | TimerFires j | Compare j _ => Nat.eqb j id
+  | WLoad j | WakeClose j | WakeCtx j | TimerFires j | Compare j _ | Store j => Nat.eqb j id
   | _ => false
   end.
 
@@ -480,9 +627,13 @@ Proof.
   intros s ev Hne. unfold r_step. destruct (r_enabled s ev); [|reflexivity].
   destruct ev; cbn [r_apply]; try reflexivity; try congruence.
   - destruct (r_state s =? st_hr); reflexivity.
-  - destruct (r_state s =? st_hr); reflexivity.
-  - destruct (negb (pool_of s id =? w_pool (watcher_of s id))%nat); [reflexivity|].
-    destruct (negb ok); [reflexivity|]. destruct (nth_error (objs s) (w_pool (watcher_of s id))); reflexivity.
+  - destruct (r_state s =? st_hr); [reflexivity|].
+    destruct (check_early s && negb (pool_of s id =? w_pool (watcher_of s id))%nat); reflexivity.
+  - destruct (negb (check_early s) && negb (pool_of s id =? w_pool (watcher_of s id))%nat); [reflexivity|].
+    destruct (negb ok).
+    + destruct (check_early s && negb (pool_of s id =? w_pool (watcher_of s id))%nat); reflexivity.
+    + destruct (nth_error (objs s) (w_pool (watcher_of s id))); reflexivity.
+  - destruct (nth_error (objs s) (w_pool (watcher_of s id))); reflexivity.
   - unfold hr_event. destruct (closed s); [reflexivity|].
     destruct ((r_state s =? st_hr) && negb (r_epoch s =? e)); [reflexivity|].
     destruct (r_state s =? st_hr); cbn.
@@ -554,4 +705,4 @@ Definition close_race_history : list revent :=
    replacement after the pools were closed; Close returns with a live session in the pool *)
 Definition seeded_close_prog : list cstep := [CCancel; CCloseAll; CWait].
 Definition inflight_history : list revent :=
-  [WLoad 0; SessionLost 0; WakeClose 0; TimerFires 0; CloseStep; CloseStep; Compare 0 true; WLoad 0; WakeCtx 0; CloseStep].
+  [WLoad 0; SessionLost 0; WakeClose 0; TimerFires 0; CloseStep; CloseStep; Compare 0 true; Store 0; WLoad 0; WakeCtx 0; CloseStep].
